@@ -85,6 +85,27 @@ def query_family(rng, n: int) -> List[str]:
     return [f.format(e=e) for f in frames[:n]]
 
 
+# queries that differ only where a sloppy equality / hash would not look: what "intern equal
+# expressions" or "deduplicate equal selectors" would wrongly merge
+NEAR_EQUAL = (
+    ("$[?@.a == {x}]", ("1", "true", "1.0", "'1'", "null", "0", "false")),
+    ("$..[?@ == {x}]", ("1", "true", "1.0", "0", "false", "0.0", "''", "null")),
+    ("$[{x}]", ("0", "'0'", "-0", "0:1", "0::1", ":1")),
+    ("$[?@ {x} 1]", (">", ">=", "==", "!=", "<", "<=")),
+    ("$[?{x}]", ("@.a", "!@.a", "@.a == @.a", "@.a != @.a", "$.a", "@..a")),
+    ("$..[{x}]", ("'a'", "'b'", "'a', 'b'", "'b', 'a'", "'a', 'a'", "*")),
+    ("$[?length(@.a) == {x}]", ("1", "true", "1.0", "2")),
+    ("$[?count(@.*) > {x} && @.a]", ("0", "1", "false")),
+)
+
+
+def near_equal_family(rng, n: int) -> List[str]:
+    frame, holes = rng.choice(NEAR_EQUAL)
+    hs = list(holes)
+    rng.shuffle(hs)
+    return [frame.format(x=h) for h in hs[:n]]
+
+
 def perturb(rng, v: Any) -> Any:
     """Same shape, different content."""
     if isinstance(v, list):
@@ -299,8 +320,11 @@ def gen_history(rng, faults: bool) -> Dict[str, Any]:
         e = rng.choice(envs)
         return Q.render(Q.gen_query(rng, _features_for(envspecs[e], rng), 0, 1))
 
-    if rng.random() < 0.3:
+    fam = rng.random()
+    if fam < 0.3:
         qpool.extend(query_family(rng, rng.choice((2, 3))))
+    elif fam < 0.45:
+        qpool.extend(near_equal_family(rng, rng.choice((2, 3, 4))))
     for _ in range(rng.choice((1, 2, 3, 4))):
         q = new_query()
         qpool.append(q)
@@ -313,7 +337,41 @@ def gen_history(rng, faults: bool) -> Dict[str, Any]:
     iters: List[str] = []
     nops = rng.randint(5, 40)
     inject_at = rng.randrange(nops) if ("iter" in enabled and rng.random() < 0.35) else -1
+    clash_at = rng.randrange(nops) if rng.random() < 0.3 else -1
     for k in range(nops):
+        if k == clash_at and len(envs) < 7:
+            # one function NAME, different types on two environments, each compiling the name
+            # where its type matters (and, crosswise, where the other's would): whatever the
+            # library derives from a function must be per environment, not per name
+            name = rng.choice(FNAMES + ("length", "count"))
+            rets = rng.sample(["V", "L", "N"], 2)
+            two = []
+            for ret in rets:
+                eid = f"e{len(envs)}"
+                fs = {"args": [rng.choice(("V", "N"))], "ret": ret, "behav": rng.choice(("first", "shape", "const"))}
+                spec = {"funcs": []}
+                if rng.random() < 0.4:
+                    spec["setup"] = [[name, fs]]  # registered by a subclass's setup_function_extensions()
+                    ops.append({"op": "new_env", "id": eid, "spec": copy.deepcopy(spec)})
+                else:
+                    ops.append({"op": "new_env", "id": eid, "spec": copy.deepcopy(spec)})
+                    ops.append({"op": "register", "env": eid, "name": name, "fspec": fs})
+                    spec["funcs"].append([name, fs])
+                envspecs[eid] = spec
+                envs = sorted(envspecs)
+                two.append((eid, ret))
+            uses = {"V": "$[?{n}(@.a) == 1]", "L": "$[?{n}(@.a)]", "N": "$[?count({n}(@.a)) > 0]"}
+            order = [(e, r) for e, r in two] + [(two[0][0], two[1][1]), (two[1][0], two[0][1])]
+            if rng.random() < 0.3:
+                order.append(("module", rng.choice(rets)))
+            rng.shuffle(order)
+            for e, r in order:
+                cid = f"c{len(compiled)}"
+                ops.append({"op": "compile", "id": cid, "env": e, "q": uses[r].format(n=name)})
+                compiled.append(cid)
+                if rng.random() < 0.5:
+                    ops.append({"op": "apply", "c": cid, "doc": rng.choice(docs), "entry": "find"})
+            continue
         if k == inject_at:
             # abandon an iterator half-way, then reuse the same compiled query elsewhere
             cid, iid = f"c{len(compiled)}", f"i{len(iters)}"
